@@ -234,3 +234,65 @@ pub fn close_future_dropped(report: &mut crate::ev::Report) -> u64 {
     }
     cases
 }
+
+/// C05: a reply that was received and parked for its owner is delivered to that owner even if the stream ends
+/// right behind it. n = 2..3 requests outstanding; the peer answers every non-empty proper subset of them, in every
+/// order, and then closes; the reply futures are polled to completion one after the other in every order (so that
+/// a request that is never answered reads the others' replies, parks them, and then meets the end of the stream).
+/// Answered requests must resolve to their own reply, the others to an error.
+pub fn parked_reply_survives_close(report: &mut crate::ev::Report) -> u64 {
+    use netconf::message::rpc::operation::{Builder as _, Get};
+    fn perms(items: &[usize]) -> Vec<Vec<usize>> {
+        if items.len() <= 1 { return vec![items.to_vec()]; }
+        let mut out = Vec::new();
+        for i in 0..items.len() {
+            let mut rest = items.to_vec();
+            let x = rest.remove(i);
+            for mut p in perms(&rest) { p.insert(0, x); out.push(p); }
+        }
+        out
+    }
+    let mut cases = 0u64;
+    for n in 2..=3usize {
+        let all: Vec<usize> = (0..n).collect();
+        for mask in 1..((1u32 << n) - 1) {
+            let answered: Vec<usize> = (0..n).filter(|k| mask & (1 << k) != 0).collect();
+            for arrival in perms(&answered) {
+                for poll_order in perms(&all) {
+                    cases += 1;
+                    let case = serde_json::json!({"requests": n, "answered_in_order": arrival, "futures_awaited_in_order": poll_order});
+                    let mut env = match establish(&std_hello(&[])) {
+                        Ok(e) => e,
+                        Err(e) => { report.violation("C05:parked-reply:establish", &e, case); continue; }
+                    };
+                    let mut futs: Vec<Option<_>> = Vec::new();
+                    for _ in 0..n {
+                        match drive(env.session.rpc::<Get, _>(|b| b.finish()), 10_000) {
+                            Some(Ok(f)) => futs.push(Some(f)),
+                            _ => futs.push(None),
+                        }
+                    }
+                    if futs.iter().any(Option::is_none) { report.violation("C05:parked-reply:send", "could not send the requests", case); continue; }
+                    let ids: Vec<String> = (0..n).map(|k| mem::message_id_of(&env.wire.sent_text(k + 1).unwrap_or_default()).unwrap_or_default()).collect();
+                    for &k in &arrival {
+                        env.wire.deliver(format!("<rpc-reply message-id=\"{}\" xmlns=\"{}\"><data><tag>own-{k}</tag></data></rpc-reply>{}", ids[k], crate::junos::BASE_NS, mem::MARKER));
+                    }
+                    env.wire.lock().closed = true;
+                    for &k in &poll_order {
+                        let fut = futs[k].take().expect("future");
+                        let got = drive(fut, 100_000).map(|r| r.map(|o| o.to_string()).map_err(|e| format!("{e:?}")));
+                        let desc = format!("{n} requests, the peer answers {arrival:?} and closes, futures awaited in order {poll_order:?}");
+                        match (answered.contains(&k), got) {
+                            (_, None) => report.violation("C05:parked-reply:never-resolves", &format!("{desc}: request {k} never resolves"), case.clone()),
+                            (true, Some(Ok(v))) if v == format!("<tag>own-{k}</tag>") => {}
+                            (true, Some(other)) => report.violation("C05:parked-reply:received-reply-not-delivered", &format!("{desc}: request {k} was answered before the stream ended but resolved to {other:?}"), case.clone()),
+                            (false, Some(Ok(v))) => report.violation("C05:parked-reply:result-without-reply", &format!("{desc}: request {k} was never answered but resolved to Ok({v:?})"), case.clone()),
+                            (false, Some(Err(_))) => {}
+                        }
+                    }
+                }
+            }
+        }
+    }
+    cases
+}
